@@ -16,7 +16,13 @@ import (
 
 type vRand struct{ s uint64 }
 
-func newVRand(seed uint64) *vRand { return &vRand{s: seed*0x9E3779B97F4A7C15 + 0x1234567} }
+// newVRand mixes the seed first so that neighbouring seeds give unrelated streams.
+func newVRand(seed uint64) *vRand {
+	z := seed + 0x9E3779B97F4A7C15
+	z = (z ^ (z >> 30)) * 0xBF58476D1CE4E5B9
+	z = (z ^ (z >> 27)) * 0x94D049BB133111EB
+	return &vRand{s: z ^ (z >> 31)}
+}
 
 func (r *vRand) u64() uint64 {
 	r.s += 0x9E3779B97F4A7C15
@@ -151,6 +157,12 @@ type vCase struct {
 // cases in VERIF_REPLAY or generates new ones, executes them on the real code
 // and writes the observations to VERIF_OUT (JSON lines).
 func vRun(t *testing.T, gen func(e *vEnv, r *vRand) []vCase, exec func(t *testing.T, c *vCase)) {
+	vRunPar(t, gen, exec, 1)
+}
+
+// vRunPar is vRun with up to `workers` cases executing concurrently (each case
+// must then own all the state it touches). Results are written in case order.
+func vRunPar(t *testing.T, gen func(e *vEnv, r *vRand) []vCase, exec func(t *testing.T, c *vCase), workers int) {
 	e := verifEnv(t)
 	var cases []vCase
 	if e.replay != "" {
@@ -185,16 +197,36 @@ func vRun(t *testing.T, gen func(e *vEnv, r *vRand) []vCase, exec func(t *testin
 	defer out.Close()
 	w := bufio.NewWriter(out)
 	defer w.Flush()
-	for i := range cases {
-		c := &cases[i]
-		func() {
-			defer func() {
-				if r := recover(); r != nil {
-					c.Crash = fmt.Sprint(r)
-				}
-			}()
-			exec(t, c)
+	if s := os.Getenv("VERIF_WORKERS"); s != "" {
+		if v, err := strconv.Atoi(s); err == nil && v > 0 {
+			workers = v
+		}
+	}
+	run := func(c *vCase) {
+		defer func() {
+			if r := recover(); r != nil {
+				c.Crash = fmt.Sprint(r)
+			}
 		}()
+		exec(t, c)
+	}
+	done := make([]chan struct{}, len(cases))
+	for i := range done {
+		done[i] = make(chan struct{})
+	}
+	sem := make(chan struct{}, workers)
+	go func() {
+		for i := range cases {
+			sem <- struct{}{}
+			go func(i int) {
+				defer func() { <-sem; close(done[i]) }()
+				run(&cases[i])
+			}(i)
+		}
+	}()
+	for i := range cases {
+		<-done[i]
+		c := &cases[i]
 		data, err := json.Marshal(c)
 		if err != nil {
 			t.Fatal(err)
